@@ -101,7 +101,8 @@ func ApplyEdit(g G, p *Project, d *verifsim.Disk, inPlace bool) string {
 		} else {
 			imp.Style = ImpDefault
 			if p.Mods[t].Kind == "json" {
-				imp.Style = []int{ImpDefault, ImpNamed, ImpStar}[g.n(3)]
+				imp.Style = []int{ImpDefault, ImpNamed, ImpStar, ImpDefault}[g.n(4)]
+				imp.Attr = imp.Style == ImpDefault && g.n(3) == 0
 			}
 			if p.Mods[t].Kind == "css" {
 				imp.Style = ImpSideEffect
@@ -274,7 +275,11 @@ func ApplyEdit(g G, p *Project, d *verifsim.Disk, inPlace bool) string {
 			}
 			desc += " " + pk.Dir
 		} else {
-			switch g.n(4) {
+			switch g.n(5) {
+			case 4:
+				// a field behind "type" changes: the line text changes, the position of "type" does not
+				p.HasRootPJ = true
+				p.PJVer++
 			case 0:
 				p.HasRootPJ = !p.HasRootPJ
 				if !p.HasRootPJ {
@@ -288,7 +293,7 @@ func ApplyEdit(g G, p *Project, d *verifsim.Disk, inPlace bool) string {
 				p.HasRootPJ = true
 				p.PkgType = []string{"", "module", "commonjs"}[g.n(3)]
 			}
-			desc += fmt.Sprintf(" root present=%v type=%q pad=%d", p.HasRootPJ, p.PkgType, p.PJPad)
+			desc += fmt.Sprintf(" root present=%v type=%q pad=%d ver=%d", p.HasRootPJ, p.PkgType, p.PJPad, p.PJVer)
 		}
 	case EdTSConfig:
 		switch {
@@ -387,7 +392,8 @@ func ApplyEdit(g G, p *Project, d *verifsim.Disk, inPlace bool) string {
 			}
 		}
 		if im.Target >= 0 && p.Mods[im.Target].Kind == "json" && m.Kind != "cjs" {
-			im.Style = []int{ImpDefault, ImpNamed, ImpStar}[g.n(3)]
+			im.Style = []int{ImpDefault, ImpNamed, ImpStar, ImpDefault}[g.n(4)]
+			im.Attr = im.Style == ImpDefault && g.n(2) == 0 // with { type: "json" }: another module identity for the same file
 		}
 		im.Spec = []string{"", "ext", "alias"}[g.n(3)]
 		desc += fmt.Sprintf(" %s import of %d -> style %d spec %q", m.Path, im.Target, im.Style, im.Spec)
